@@ -64,7 +64,14 @@ def targeted_cases(ctx, res0, n_quick=24, n_thorough=60, scale=1, names=None):
     named = named_schemes(res0, names)
     if not named:
         return []
-    return gen_cases(ctx, named, ctx.pick(n_quick, n_thorough), profiles=se.PROFILES + se.BIG_PROFILES, scale=scale)
+    out = []
+    if "SSE2" in named:
+        # SSE-2 tokens cost param_n PRP calls each: fewer configurations, one big profile (a list with counters beyond one byte)
+        out += gen_cases(ctx, ["SSE2"], ctx.pick(min(n_quick, 6), min(n_thorough, 16)), profiles=se.PROFILES + ["long_list"], scale=scale)
+        named = [n for n in named if n != "SSE2"]
+    if named:
+        out += gen_cases(ctx, named, ctx.pick(n_quick, n_thorough), profiles=se.PROFILES + se.BIG_PROFILES, scale=scale)
+    return out
 
 
 def show_case(c, w=None):
